@@ -84,6 +84,14 @@ def call(eng, e, st, fr, k):
         def with_recv(recv, s0):
             kind = value_kind(recv)
             m = METHODS.get((kind, e.func.attr))
+            if m is None and isinstance(recv, Ref) and recv.kind == "obj":
+                meths = s0.heap[recv.base].get("#methods", {})
+                if e.func.attr in meths:
+                    h = meths[e.func.attr]
+                    return eval_args(eng, e, s0, fr, lambda a, kw, s: _dispatch_handler(
+                        eng, h, e.func.attr, [recv] + a, kw, s, fr, k, e))
+            if m is None and isinstance(recv, Opq):
+                m = _opq_method(e.func.attr)
             if m is None:
                 if isinstance(recv, Closure):
                     raise Unsupported("method on closure")
@@ -261,9 +269,15 @@ def contract_call(eng, c, args, kwargs, st, fr, k, node):
     is_method = "." in c.qualname and not c.static
     if is_method and c.receiver_from_call:
         pass
+    new_obj = None
+    if getattr(c, "constructor", False):
+        from .contract import make_symbolic
+        new_obj, st = make_symbolic(eng, eng.new_base("new:" + c.qualname.split(".")[0]),
+                                    c.new_obj or c.params["self"], st, set())
+        args = [new_obj] + list(args)
     bound = bind_signature(eng, fn.args, args, kwargs, st)
     label = f"call {c.qualname}@{getattr(node, 'lineno', 0)}"
-    pre_ns = Namespace(**{p: eng.resolve(v, st.heap) for p, v in bound.items()})
+    pre_ns = Namespace({p: eng.resolve(v, st.heap) for p, v in bound.items()})
     pre_ns.__dict__["old"] = pre_ns
     pre_ns.__dict__["arg"] = pre_ns
     if c.requires is not None:
@@ -281,12 +295,21 @@ def contract_call(eng, c, args, kwargs, st, fr, k, node):
         v = bound[m.split(".")[0]]
         s2 = havoc_heap(eng, s2, v, "*" if "." not in m else ("attr", m.split(".", 1)[1]))
     result, s2 = c.make_result(eng, s2, bound) if c.make_result else (PNONE, s2)
-    post_ns = Namespace(**{p: eng.resolve(v, s2.heap) for p, v in bound.items()})
+    if new_obj is not None:
+        result = new_obj
+        if c.init_obj is not None:
+            s2 = c.init_obj(eng, s2, bound, new_obj)
+    post_ns = Namespace({p: eng.resolve(v, s2.heap) for p, v in bound.items()})
     post_ns.__dict__["old"] = pre_ns
     post_ns.__dict__["arg"] = post_ns
     res = eng.resolve(result, s2.heap)
     if c.ensures is not None:
-        for _, f in normalize_clauses(c.ensures(eng.S, post_ns, res)):
+        eng.S.assuming = True
+        try:
+            clauses = normalize_clauses(c.ensures(eng.S, post_ns, res))
+        finally:
+            eng.S.assuming = False
+        for _, f in clauses:
             s2 = s2.assume(eng.S.b(f))
     return k(result, s2)
 
@@ -388,7 +411,7 @@ def _bool(eng, a, kw, st, fr, k, node):
 def _isinstance(eng, a, kw, st, fr, k, node):
     v, cls = a
     names = [c.name for c in (cls if isinstance(cls, tuple) else (cls,))]
-    key = "|".join(names)
+    key = "+".join(names)
     if isinstance(v, Arr):
         return k(z3.BoolVal(any(n in ("np.ndarray",) for n in names)), st)
     if v is PNONE:
@@ -424,7 +447,21 @@ def _list(eng, a, kw, st, fr, k, node):
         return k([], st)
     if isinstance(a[0], (list, tuple)):
         return k(list(a[0]), st)
+    if isinstance(a[0], Opq):
+        return k(Opq(z3.Function("fn:list", V, V)(a[0].t)), st)
     raise Unsupported("list(x) of symbolic")
+
+
+def _opq_method(name):
+    def m(eng, recv, a, kw, st, fr, k, node):
+        eng.assumptions.add(f"method .{name}() on an opaque value is a pure uninterpreted function of receiver and arguments")
+        try:
+            vs = [recv.t] + [eng.to_v(x) for x in a] + [eng.to_v(kw[x]) for x in sorted(kw)]
+        except Unsupported:
+            return k(Opq(eng.fresh("ret:" + name, "V")), st)
+        f = z3.Function("method:" + name, *([V] * (len(vs) + 1)))
+        return k(Opq(f(*vs)), st)
+    return m
 
 
 @lib("tuple")
@@ -498,6 +535,8 @@ def _arr_copy(eng, recv, a, kw, st, fr, k, node):
     base = eng.new_base("copy")
     cell = dict(st.heap[recv.base])
     s2 = St(st.env, {**st.heap, base: cell}, st.pc, st.ghost)
+    dt = z3.Function("dtype_of", V, V)
+    s2 = s2.assume(dt(z3.Const("arr:" + base, V)) == dt(z3.Const("arr:" + recv.base, V)))
     return k(Arr(base, recv.field, recv.lo, recv.n, recv.ncols), s2)
 
 
@@ -557,6 +596,8 @@ def with_stmt(eng, s, st, fr, k):
 def _endtime(eng, a, kw, st, fr, k, node):
     """strax.endtime: the 'endtime' field, or time + length*dt when the dtype has no such field."""
     x = a[0]
+    if isinstance(x, Opq):
+        return k(Opq(z3.Function("fn:strax.endtime", V, V)(x.t)), st)
     base = x.base
     sorts = st.heap.get(base, {}).get("#sorts", {})
     computed = "endtime" not in sorts and "length" in sorts and "dt" in sorts
@@ -571,6 +612,8 @@ def _endtime(eng, a, kw, st, fr, k, node):
             lo = x.lo
             return k(Vec(x.n, lambda i: z3.Select(t, lo + i) + z3.Select(l, lo + i) * z3.Select(d, lo + i)), st)
         return k(Arr(base, "endtime", x.lo, x.n), st)
+    if isinstance(x, Opq):
+        return k(Opq(z3.Function("fn:strax.endtime", V, V)(x.t)), st)
     raise Unsupported("strax.endtime of " + type(x).__name__)
 
 
@@ -620,3 +663,64 @@ def make_perm_result(eng, st, n):
     inv, st = new_int_array(eng, st, "perm_inv", n)
     eng.inv_of[perm.base] = inv
     return perm, st
+
+
+def inline_property(relpath, qualname):
+    """Property handler that inlines the (loop-free) getter read from the real source."""
+    def h(eng, ref, st, fr, k, node):
+        fn, _ = find_function(relpath, qualname)
+        return inline_call(eng, Closure(fn, {}), [ref], {}, st, fr, k, node)
+    return h
+
+
+def attr_alias(name):
+    """Property that simply returns another attribute (``subruns`` -> ``_subruns``)."""
+    def h(eng, ref, st, fr, k, node):
+        return k(st.heap[ref.base][name], st)
+    return h
+
+
+def inline_setter(relpath, qualname):
+    def h(eng, ref, v, st, fr, k, node):
+        fn, _ = find_function(relpath, qualname + "@setter")
+        return inline_call(eng, Closure(fn, {}), [ref, v], {}, st, fr, lambda _r, s: k(s), node)
+    return h
+
+
+def setter_contract(c):
+    """Use a contract as the handler of a property setter."""
+    def h(eng, ref, v, st, fr, k, node):
+        return contract_call(eng, c, [ref, v], {}, st, fr, lambda _r, s: k(s), node)
+    return h
+
+
+@method("arr", "max", "min")
+def _arr_max(eng, recv, a, kw, st, fr, k, node):
+    """x.max() / x.min() of a 1-D column: the greatest / least element (requires a non-empty array)."""
+    if recv.field is None:
+        raise Unsupported("max of structured array")
+    name = node.func.attr
+    eng.oblige("safety", f"{name}() of a non-empty array", st, recv.n > 0, node)
+    arr = eng.heap_field(st.heap, recv.base, recv.field)
+    m = eng.fresh(name)
+    lo = recv.lo
+    cmp_ = (lambda x: x <= m) if name == "max" else (lambda x: x >= m)
+    # quantify over absolute indices so that the facts match goals stated on the underlying array
+    s2 = st.assume(eng.S.forall(lo, lo + recv.n, lambda j: cmp_(z3.Select(arr, j))))
+    s2 = s2.assume(eng.S.exists(lo, lo + recv.n, lambda j: z3.Select(arr, j) == m))
+    return k(m, s2)
+
+
+@lib("np.empty")
+def _np_empty(eng, a, kw, st, fr, k, node):
+    """np.empty(n, dtype): a fresh structured array of the given dtype (contents arbitrary)."""
+    n = eng.to_int(a[0])
+    base = eng.new_base("empty")
+    cell = {"#sorts": {}}
+    s2 = St(st.env, {**st.heap, base: cell}, st.pc, st.ghost)
+    if len(a) > 1 or "dtype" in kw:
+        d = a[1] if len(a) > 1 else kw["dtype"]
+        dt = z3.Function("dtype_of", V, V)
+        npd = z3.Function("fn:np.dtype", V, V)
+        s2 = s2.assume(dt(z3.Const("arr:" + base, V)) == npd(eng.to_v(d)))
+    return k(Arr(base, None, z3.IntVal(0), n), s2)
